@@ -228,7 +228,10 @@ def close_before_repositioning(c):
                 ("on_node_remembered", z3.Implies(on, lastn != NONE_REF))]
     c.interp.loop_hooks[(MOD + "_close_italics_before_repositioning", 1)] = loop_rule(
         "reposition.loop", inv, locals_={"new_collection": ("seq", _InstructionNode), "italics_on": ("bool", None),
-                                         "last_italics_on_node": ("oref", _InstructionNode)})
+                                         "last_italics_on_node": ("oref", _InstructionNode)},
+        # (the constructor of the inserted nodes stores their text / position; neither is read by the folds,
+        # which use the text at function entry)
+        fields=[(_InstructionNode, "text"), (_InstructionNode, "position")])
     r = c.call(SC._close_italics_before_repositioning, inp, compare=False)
     finish(p, inp)
     pre_ok = ALT(inp.t) != BAD
